@@ -14,15 +14,18 @@ Ev(name) == l <= Len(Trace) /\ Trace[l].ev = name /\ l' = l + 1
 Stutter == UNCHANGED vars
 TReset == /\ Ev("reset")
           /\ cli' = "start" /\ i' = 0 /\ errc' = "open" /\ srv' = "idle" /\ meta' = FALSE /\ inq' = <<>>
-          /\ ncer' = 0 /\ closed' = FALSE /\ npeer' = 0 /\ appOK' = FALSE
+          /\ ncer' = 0 /\ closed' = FALSE /\ npeer' = 0 /\ appOK' = FALSE /\ crashed' = FALSE
 \* the CER is on the wire before hs.send is logged: WriteCER is silent, hs.send = the goroutine reaches its select
 TSend    == Ev("hs.send") /\ EnterSelect
-Silent   == l <= Len(Trace) /\ UNCHANGED l /\ (WriteCER \/ SendOnClosed)
+\* hs.fail is logged between the receive and the close of errc: the close (CloseErrc) is silent
+Silent   == l <= Len(Trace) /\ UNCHANGED l /\ (WriteCER \/ SendOnClosed \/ CloseErrc \/ RecvErr)
 TWFail   == Ev("hs.writefail") /\ SendFails
 TTimer   == Ev("hs.timer") /\ Timer
 TTimeout == Ev("hs.timeout") /\ cli = "done_err" /\ Stutter
 TOk      == Ev("hs.ok") /\ RecvClosed
-TFail    == Ev("hs.fail") /\ RecvErr
+\* the receive from errc is the linearization point, the hook line is written after it: the serve goroutine
+\* (released by the receive) may log its next event first
+TFail    == Ev("hs.fail") /\ (RecvErr \/ (cli \in {"failing", "done_err"} /\ Stutter))
 TPeer    == Ev("peer") /\ Peer(Trace[l].k)
 TCeaOk   == Ev("cea.ok") /\ inq # <<>> /\ Head(inq) = "ok" /\ ~meta /\ HandleCEA
 TCeaFail == Ev("cea.fail") /\ inq # <<>> /\ Head(inq) = "fail" /\ ~meta /\ HandleCEA
